@@ -534,10 +534,14 @@ theorem route_viaFunc (R : Rules) (d : Dir) (t : String) (p : Param) (fp : FPara
     (h : p.viaFunc = some fp) : route R d t p = doRoute R d t fp := by
   cases p <;> simp [Param.viaFunc] at h <;> subst h <;> rfl
 
-/-- a key-reading function (plain or nesting a re-entrant `Route`) answers from its own parameter -/
-theorem applyBeh_keyOf (b : Beh) (k : String) (fp : FParam) (h : b.keyOf = some k) :
-    applyBeh b fp = applyKey k fp := by
-  cases b <;> simp [Beh.keyOf] at h <;> subst h <;> rfl
+/-- a key-reading function (plain, nesting a re-entrant `Route`, with a default, nil-aware)
+answers a session / key map — empty ones included — from the parameter's own key -/
+theorem applyBeh_kvs (b : Beh) (k dflt : String) (l : KVs) (h : b.keyOf = some (k, dflt)) :
+    applyBeh b (.kvs l) = applyKey k dflt (.kvs l) := by
+  cases b <;> simp [Beh.keyOf] at h <;> obtain ⟨rfl, rfl⟩ := h <;> rfl
+
+theorem viaFunc_of_kvs (p : Param) (l : KVs) (hk : p.kvs? = some l) : p.viaFunc = some (.kvs l) := by
+  cases p <;> simp [Param.kvs?] at hk <;> subst hk <;> rfl
 
 theorem route_names (R : Rules) (d : Dir) (t : String) (p : Param) (n : String)
     (h : RuleNames R t p n) : route R d t p = n := by
@@ -545,11 +549,14 @@ theorem route_names (R : Rules) (d : Dir) (t : String) (p : Param) (n : String)
   | explicit => rfl
   | const hl hv => rw [route_viaFunc R d t p _ hv]; simp [doRoute, hl, applyBeh]
   | key hl hb hk hg =>
+    rename_i l b k dflt
+    rw [route_viaFunc R d t p _ (viaFunc_of_kvs p l hk)]
+    simp [doRoute, hl, applyBeh_kvs b k dflt l hb, applyKey, hg]
+  | keyDefault hl hb hk hg =>
     rename_i l b k
-    have hv : p.viaFunc = some (.kvs l) := by
-      cases p <;> simp [Param.kvs?] at hk <;> subst hk <;> rfl
-    rw [route_viaFunc R d t p _ hv]
-    simp [doRoute, hl, applyBeh_keyOf b k _ hb, applyKey, hg]
+    rw [route_viaFunc R d t p _ (viaFunc_of_kvs p l hk)]
+    simp [doRoute, hl, applyBeh_kvs b k n l hb, applyKey, hg]
+  | nilName hl => simp [route, doRoute, hl, applyBeh]
 
 /-- `RoutePID` for a rule that names `n ≠ ""` is the directory lookup of `n` -/
 theorem routePID_names (R : Rules) (d : Dir) (t : String) (p : Param) (n : String)
@@ -576,9 +583,7 @@ theorem routePID_fails (R : Rules) (d : Dir) (hd : d.Ok) (t : String) (p : Param
   | funcPanics hl hv hp => simp [routePID, route_viaFunc R d t p _ hv, doRoute, hl, hp]
   | keyAbsent hl hb hk hgk =>
     rename_i l b k
-    have hv : p.viaFunc = some (.kvs l) := by
-      cases p <;> simp [Param.kvs?] at hk <;> subst hk <;> rfl
-    simp [routePID, route_viaFunc R d t p _ hv, doRoute, hl, applyBeh_keyOf b k _ hb, applyKey, hgk]
+    simp [routePID, route_viaFunc R d t p _ (viaFunc_of_kvs p l hk), doRoute, hl, applyBeh_kvs b k "" l hb, applyKey, hgk]
   | badParam =>
     simp only [routePID, route, sentinels_ne.2.1, if_false]
     exact getServicePID_none d hd _ g2
